@@ -96,7 +96,9 @@ type impl struct {
 	sortAck          bool
 	dupTransmissions int
 	seenOnInc        map[string]string // incarnation/sequence -> chunk as reported
-	bufBytes         int               // oracle: payload bytes written since the last chunk was cut
+	dupSeqs          map[uint32]int    // sequence numbers transmitted twice on one transport (copies still to be matched by an extra ack)
+	ackedOnce        map[string]bool
+	bufBytes         int // oracle: payload bytes written since the last chunk was cut
 	sizeViolation    string
 }
 
@@ -264,6 +266,13 @@ func (i *impl) reportOld(n int) string {
 	return i.report()
 }
 
+func (i *impl) noteDup(seq uint32) {
+	if i.dupSeqs == nil {
+		i.dupSeqs = map[uint32]int{}
+	}
+	i.dupSeqs[seq]++
+}
+
 // report: everything observable that is new since the previous op
 func (i *impl) report() string {
 	i.settle()
@@ -292,6 +301,7 @@ func (i *impl) report() string {
 			key := fmt.Sprintf("%d/%d", r.Inc, m.StreamChunk.SequenceNumber)
 			if prev, ok := i.seenOnInc[key]; ok && prev == sig {
 				i.dupTransmissions++
+				i.noteDup(m.StreamChunk.SequenceNumber)
 				continue
 			}
 			i.seenOnInc[key] = sig
@@ -307,6 +317,7 @@ func (i *impl) report() string {
 		// lists the store concurrently): identical copies are reported once
 		if k > 0 && cs[k-1].s == c.s {
 			i.dupTransmissions++
+			i.noteDup(c.seq)
 			continue
 		}
 		chunks = append(chunks, c.s)
@@ -318,6 +329,30 @@ func (i *impl) report() string {
 	i.nSend, i.nAck = len(i.sendHook), len(i.ackHook)
 	i.mu.Unlock()
 	sort.Strings(sh)
+	// a chunk that went out twice (see above) is acknowledged twice by a broker that acknowledges what it receives: the second,
+	// identical result of such a chunk is counted, not reported
+	if len(i.dupSeqs) > 0 {
+		var dd []string
+		seenAck := map[string]bool{}
+		for _, a := range ah {
+			var q uint32
+			fmt.Sscanf(a, "%d:", &q)
+			if i.dupSeqs[q] > 0 && (seenAck[a] || i.ackedOnce[a]) {
+				i.dupSeqs[q]--
+				i.dupTransmissions++
+				continue
+			}
+			seenAck[a] = true
+			if i.dupSeqs[q] > 0 {
+				if i.ackedOnce == nil {
+					i.ackedOnce = map[string]bool{}
+				}
+				i.ackedOnce[a] = true
+			}
+			dd = append(dd, a)
+		}
+		ah = dd
+	}
 	if i.sortAck {
 		sort.Slice(ah, func(a, b int) bool {
 			var x, y int
@@ -603,6 +638,36 @@ func (i *impl) exec(op string) string {
 			defer i.mu.Unlock()
 			return resumed && n >= want && i.resumedEv > ev0
 		})
+		// the acknowledgements of the retransmitted chunks are processed asynchronously (hook dispatch, removal from the store):
+		// the op is over when they have been, not merely when the chunks arrived
+		if ok && i.reliable && len(i.waiting) > 0 {
+			var seqs []uint32
+			for q := range i.waiting {
+				seqs = append(seqs, q)
+			}
+			i.mu.Lock()
+			nAck0 := i.nAck
+			i.mu.Unlock()
+			waitUntil(func() bool {
+				i.mu.Lock()
+				hooks := len(i.ackHook) - nAck0
+				i.mu.Unlock()
+				if hooks < len(seqs) {
+					return false
+				}
+				if i.st == nil {
+					return true
+				}
+				i.st.mu.Lock()
+				defer i.st.mu.Unlock()
+				for _, q := range seqs {
+					if !i.st.removed[q] {
+						return false
+					}
+				}
+				return true
+			})
+		}
 		// what arrived on the new incarnation
 		cur := i.b.Cur()
 		var resent []string
@@ -669,6 +734,77 @@ func (i *impl) exec(op string) string {
 		return i.report()
 	}
 	return "bad-op"
+}
+
+// flushStorm: Flush is a barrier also right after Flush calls that were abandoned. Per round: four goroutines call Flush with a
+// context that is already cancelled or ends at once; then one point is written and Flush is called with a live context: when it
+// returns nil the buffer must be empty and everything accepted must have been cut. (Policy none: nothing else cuts.)
+func (i *impl) flushStorm(h *lp.H, rounds int) string {
+	if i.conn != nil {
+		c, cancel := context.WithTimeout(context.Background(), 200*time.Millisecond)
+		i.conn.Close(c)
+		cancel()
+	}
+	*i = impl{}
+	i.b = broker.New()
+	i.b.Register()
+	conn, err := iscp.Connect("mem", broker.TransportName, iscp.WithConnPingInterval(time.Hour), iscp.WithConnPingTimeout(time.Hour))
+	if err != nil {
+		return "err connect"
+	}
+	i.conn = conn
+	rp, _ := realPolicy("none")
+	ctx, cancel := context.WithTimeout(context.Background(), 20*time.Second)
+	defer cancel()
+	up, err := conn.OpenUpstream(ctx, "s", iscp.WithUpstreamFlushPolicy(rp), iscp.WithUpstreamQoS(message.QoSReliable), iscp.WithUpstreamCloseTimeout(watchdog))
+	if err != nil {
+		return "err open"
+	}
+	i.up = up
+	accepted := 0
+	for r := 0; r < rounds; r++ {
+		var wg sync.WaitGroup
+		for g := 0; g < 4; g++ {
+			wg.Add(1)
+			go func(g int) {
+				defer wg.Done()
+				c, cc := context.WithCancel(context.Background())
+				if g%2 == 0 {
+					cc()
+				} else {
+					time.AfterFunc(time.Duration(g)*20*time.Microsecond, cc)
+				}
+				up.Flush(c)
+				cc()
+			}(g)
+		}
+		wg.Wait()
+		if err := up.WriteDataPoints(ctx, dp.ID(1), dp.ParsePoints(fmt.Sprintf("%d/01", r))...); err != nil {
+			return "err write"
+		}
+		accepted++
+		fctx, fc := context.WithTimeout(ctx, watchdog)
+		err := up.Flush(fctx)
+		fc()
+		if err != nil {
+			h.Violate(fmt.Sprintf("flushstorm round %d: Flush with a live context failed after abandoned Flush calls: %v", r, err))
+			return "ok"
+		}
+		st := up.State()
+		buffered := 0
+		for _, g := range st.DataPointsBuffer {
+			buffered += len(g.DataPoints)
+		}
+		if buffered != 0 || int(st.TotalDataPoints) != accepted {
+			h.Violate(fmt.Sprintf("flushstorm round %d: Flush returned nil after abandoned (cancelled) Flush calls, and the state shows %d point(s) still buffered, %d of %d accepted points cut: Flush returned before its own flush ran", r, buffered, st.TotalDataPoints, accepted))
+			return "ok"
+		}
+	}
+	if err := up.Close(ctx); err != nil {
+		h.Violate("flushstorm: Close failed: " + err.Error())
+	}
+	h.Count("conc:flushstorm-rounds-" + strconv.Itoa(rounds))
+	return "ok"
 }
 
 // concurrent: k goroutines write their own data id, others call Flush; the broker acknowledges by itself
